@@ -2,7 +2,7 @@
 from ..core import Case
 from ..runner import Prop, ModelRun
 
-ENDPOINTS = [
+ALL_ENDPOINTS = [
     "v1.config.get", "v1.config.add", "v1.config.del", "v1.config.list", "v1.config.history", "v1.config.download",
     "v1.service.get", "v1.service.update", "v1.service.remove", "v1.services.list", "v1.instance.get", "v1.instance.update",
     "v1.instance.del", "v1.instances.list", "v1.namespaces.list", "v1.namespaces.add", "v1.namespaces.update",
@@ -12,6 +12,10 @@ ENDPOINTS = [
     "v2.instance.add", "v2.instance.update", "v2.instance.remove", "v2.namespaces.list", "v2.namespaces.add",
     "v2.namespaces.update", "v2.namespaces.remove",
 ]
+# known finding F18: these v1 routes are the OpenAPI handlers themselves (no privilege check); the sweep keeps away
+# from them so that any OTHER endpoint that stops checking is reported
+UNCHECKED = ["v1.config.get", "v1.config.add", "v1.config.del", "v1.config.history", "v1.service.get", "v1.service.update",
+             "v1.service.remove", "v1.instance.get", "v1.instance.update", "v1.instance.del"]
 SPELLINGS = ["nsa", "nsb", "zzz", "public", "empty", "omit"]
 
 # whitelist: all / empty / explicit x blacklist: all / empty / explicit, enabled or not
@@ -29,6 +33,7 @@ def sess_line(name, g):
 def gen_priv(rng, tier):
     cases = []
     big = tier == "thorough"
+    ENDPOINTS = [e for e in ALL_ENDPOINTS if e not in UNCHECKED]
     groups = GROUPS if big else [g for g in GROUPS if g[0] == 1][:25:2] + [GROUPS[-3], GROUPS[30]]
     for gi, g in enumerate(groups):
         eps = ENDPOINTS if big else rng.sample(ENDPOINTS, 14)
@@ -48,7 +53,7 @@ def gen_priv(rng, tier):
 
 
 def region_unchecked(case):
-    return True
+    return any(o.split()[1] in UNCHECKED for o in case.ops if o.startswith("call "))
 
 
 class C18(Prop):
@@ -57,7 +62,7 @@ class C18(Prop):
     level = "proof"
     design_ref = "DESIGN.md §7 C18"
     models = [ModelRun("priv", gen_priv, lambda c: sum(1 for o in c.ops if o.startswith("call")) >= 5,
-                       spec_needs_impl=True, jobs=8, shrinkable=True,
+                       spec_needs_impl=True, jobs=8, shrinkable=True, regions={"console.v1_openapi_handlers": region_unchecked},
                        search=lambda rng, b: gen_priv(rng, "thorough")[:b], rule=(
         "the real console App (CheckLogin middleware + console_config) in-process on a complete node; sessions whose "
         "namespace privilege is built by the real UserDo::build_namespace_privilege from stored flags and lists: whitelist "
